@@ -43,6 +43,38 @@ import (
 
 func init() { engines["sched"] = runSched }
 
+// lockWait tells whether a goroutine's wait reason (from the runtime's stack dump) is "blocked in
+// sync.Mutex.Lock" ("semacquire" in older runtimes).
+func lockWait(st string) bool {
+	return strings.HasPrefix(st, "sync.Mutex.Lock") || strings.HasPrefix(st, "semacquire")
+}
+
+// waitReasonWorks checks on a mutex of the harness's own that a goroutine blocked in Lock is reported as such
+// by this Go runtime (the engine's only dependence on the runtime's wording).
+func waitReasonWorks() bool {
+	var mu sync.Mutex
+	mu.Lock()
+	ids := make(chan int64, 1)
+	done := make(chan struct{})
+	go func() {
+		ids <- goid()
+		mu.Lock()
+		mu.Unlock()
+		close(done)
+	}()
+	id := <-ids
+	ok := false
+	for i := 0; i < 2000 && !ok; i++ {
+		if st, found := goroutineStates()[id]; found && lockWait(st) {
+			ok = true
+		}
+		time.Sleep(50 * time.Microsecond)
+	}
+	mu.Unlock()
+	<-done
+	return ok
+}
+
 func goid() int64 {
 	var buf [64]byte
 	n := runtime.Stack(buf[:], false)
@@ -206,7 +238,7 @@ func (s *schedCtl) settle() bool {
 			s.mu.Lock()
 			for _, th := range s.threads {
 				if th.state == 'B' {
-					if st, ok := states[th.goid]; !ok || !strings.HasPrefix(st, "sync.Mutex.Lock") {
+					if st, ok := states[th.goid]; !ok || !lockWait(st) {
 						th.state = 'R'
 						changed = true
 					}
@@ -229,7 +261,7 @@ func (s *schedCtl) settle() bool {
 			if th.goid == 0 {
 				continue
 			}
-			if st, ok := states[th.goid]; ok && strings.HasPrefix(st, "sync.Mutex.Lock") && len(s.ev) == 0 {
+			if st, ok := states[th.goid]; ok && lockWait(st) && len(s.ev) == 0 {
 				th.state = 'B'
 				progressed = true
 			}
@@ -274,14 +306,20 @@ func runSched(seed uint64, scale int, out string, _ string) *summary {
 	seen := map[string]bool{}
 	// the lock reading used below must behave as expected on this Go runtime
 	var probe sync.Mutex
-	if otter.VerifMutexLocked(&probe) {
-		panic("VerifMutexLocked: an unlocked mutex reads as locked")
-	}
+	okProbe := !otter.VerifMutexLocked(&probe)
 	probe.Lock()
-	if !otter.VerifMutexLocked(&probe) {
-		panic("VerifMutexLocked: a locked mutex reads as unlocked")
-	}
+	okProbe = okProbe && otter.VerifMutexLocked(&probe)
 	probe.Unlock()
+	if !okProbe {
+		sum.Notes["skipped"] = "the state word of sync.Mutex is not where VerifMutexLocked reads it on this Go runtime"
+		return sum
+	}
+	if !waitReasonWorks() {
+		// cannot tell "blocked on the eviction lock" from "still running" on this runtime: run nothing rather
+		// than guess (the drain engine's oracles still run)
+		sum.Notes["skipped"] = "the Go runtime does not report sync.Mutex.Lock as a goroutine wait reason"
+		return sum
+	}
 	schedules := 150 * scale
 	failures := 0
 	// scripted schedules run first.  (1) a spawner stays parked before its token CAS while the task it
